@@ -8,7 +8,6 @@ import (
 	"path/filepath"
 	"reflect"
 	"runtime"
-	"runtime/debug"
 	"sort"
 	"strconv"
 	"strings"
@@ -43,16 +42,18 @@ func main() {
 	case "corr":
 		corr.Main(spec(), os.Args[2:])
 	case "stress":
-		stress(os.Args[2], os.Args[3])
+		stress(os.Args[2:])
 	default:
 		os.Exit(2)
 	}
 }
 
-// stress runs one script file n times in this process and reports every distinct output vector (diagnostic for the
-// determinism of the scheduler-driven runner: there must be exactly one).
-func stress(file, ns string) {
-	n, _ := strconv.Atoi(ns)
+// stress runs one script file n times in this process and reports every distinct output vector; with an oracle path it
+// also checks every run against the oracle's answer (sets accepted) and counts disagreements and monitor hits — the
+// diagnostic used to show that scheduling can never produce a disagreement or a hit on the unchanged tree.
+func stress(args []string) {
+	file := args[0]
+	n, _ := strconv.Atoi(args[1])
 	raw, err := os.ReadFile(file)
 	if err != nil {
 		fmt.Fprintln(os.Stderr, err)
@@ -64,70 +65,51 @@ func stress(file, ns string) {
 			lines = append(lines, l)
 		}
 	}
+	var want []string
+	if len(args) > 2 {
+		want, err = corr.RunOracle(args[2], lines)
+		if err != nil {
+			fmt.Fprintln(os.Stderr, err)
+			os.Exit(2)
+		}
+	}
 	seen := map[string]int{}
+	dis, hits := 0, 0
 	for i := 0; i < n; i++ {
 		res := runCase(corr.Case{Lines: lines})
 		seen[strings.Join(res.Outs, " | ")]++
+		hits += len(res.Hits)
+		for j := range want {
+			if !corr.DefaultAccept(want[j], res.Outs[j]) {
+				dis++
+				break
+			}
+		}
 	}
 	for k, v := range seen {
 		fmt.Printf("%6d  %s\n", v, k)
 	}
-	if len(seen) != 1 {
+	fmt.Printf("runs=%d distinct=%d disagreements=%d monitor_hits=%d\n", n, len(seen), dis, hits)
+	if dis+hits > 0 || (want == nil && len(seen) != 1) {
 		os.Exit(1)
 	}
 }
 
 // ---------------------------------------------------------------- extract
 
-func b(v bool) string { return gofacts.LeanBool(v) }
-
-func wk(s string) string {
-	switch s {
-	case "broadcast", "signal", "none":
-		return "." + s
-	}
-	return ".unknown"
-}
-
 func extract(repo, leanDir string) {
-	var wcs, cfs []string
-	for _, k := range []string{"q", "async", "mux", "mq"} {
-		q := c12facts.LoadListQ(repo, k)
-		wcs = append(wcs, fmt.Sprintf("⟨%s, %s, %s, %s⟩", wk(q.AddWake), wk(q.PriorWake), wk(q.CloseWake), wk(q.TryCloseWake)))
-		cfs = append(cfs, fmt.Sprintf("⟨%s, %s⟩", b(q.LockCovered), b(q.WaitLoop)))
-	}
-	sq := c12facts.LoadSyncQ(repo)
-	pr := c12facts.LoadPriQ(repo)
-	wcs = append(wcs, fmt.Sprintf("⟨%s, .none, %s, .none⟩", wk(sq.PushWake), wk(sq.CloseWake)))
-	// SyncQueue has no prior add: the model never uses `.prior` for it; `Proved` needs a waking value there, so the
-	// extractor repeats the push primitive (documented in docs/C13.md)
-	wcs[4] = fmt.Sprintf("⟨%s, %s, %s, .none⟩", wk(sq.PushWake), wk(sq.PushWake), wk(sq.CloseWake))
-	cfs = append(cfs, fmt.Sprintf("⟨%s, %s⟩", b(sq.LockCovered), b(sq.WaitLoop)))
-	out := fmt.Sprintf(`import Nv.Model.C13
-set_option linter.unusedVariables false
-/-! GENERATED by `+"`c13 extract`"+` from syncx/pipe/{q,async,mux,mq}, queue/syncq, queue/priq — do not edit. -/
-namespace Nv.Gen.C13
-def cfg : Nv.C13.Cfg :=
-  { q := %s, async := %s, mux := %s, mq := %s, syncq := %s,
-    priq := ⟨%s, %s⟩ }
-def facts : Nv.C13.Facts :=
-  { q := %s, async := %s, mux := %s, mq := %s, syncq := %s,
-    priq := ⟨%s, %s, %s⟩ }
-end Nv.Gen.C13
-`, wcs[0], wcs[1], wcs[2], wcs[3], wcs[4], b(pr.PushSignals), b(pr.PopResignals),
-		cfs[0], cfs[1], cfs[2], cfs[3], cfs[4], b(pr.TrySignalNB), b(pr.ChanCap1), b(pr.Known))
-	if err := gofacts.WriteIfChanged(filepath.Join(leanDir, "Nv/Gen/C13.lean"), out); err != nil {
+	text, summary := c12facts.GenC13(repo)
+	if err := gofacts.WriteIfChanged(filepath.Join(leanDir, "Nv/Gen/C13.lean"), text); err != nil {
 		fmt.Fprintln(os.Stderr, err)
 		os.Exit(2)
 	}
 	// the oracle of C13 also runs the C12 shapes: regenerate them here too (same text as `c12 extract` writes)
-	text, _ := c12facts.GenC12(repo)
-	if err := gofacts.WriteIfChanged(filepath.Join(leanDir, "Nv/Gen/C12.lean"), text); err != nil {
+	text12, _ := c12facts.GenC12(repo)
+	if err := gofacts.WriteIfChanged(filepath.Join(leanDir, "Nv/Gen/C12.lean"), text12); err != nil {
 		fmt.Fprintln(os.Stderr, err)
 		os.Exit(2)
 	}
-	fmt.Printf("extract C13: wake(add,prior,close,tryClose) q=%s async=%s mux=%s mq=%s syncq=%s priq(pushSignals,popResignals)=%v,%v facts=%s priqfacts=%v,%v,%v\n",
-		wcs[0], wcs[1], wcs[2], wcs[3], wcs[4], pr.PushSignals, pr.PopResignals, strings.Join(cfs, ""), pr.TrySignalNB, pr.ChanCap1, pr.Known)
+	fmt.Println(summary)
 }
 
 // ---------------------------------------------------------------- the real queues
@@ -510,8 +492,10 @@ func (r *runner) line(l string) string {
 	}
 	switch f[0] {
 	case "atomic":
-		// the events run back to back on a single P: consumers woken by one of them cannot resume before the last one
-		// returned (GOMAXPROCS(1) while the burst runs; everybody is parked when it is set). No hook, no sleep.
+		// The events run back to back on a single P so that consumers woken by one of them USUALLY cannot resume before
+		// the last one returned — this makes the window between a wake-up and the woken consumer's re-acquisition of the
+		// lock likely to be hit on the real code. Nothing depends on it being hit: the oracle answers a burst with the set
+		// of outcomes of all placements of the resumes, and window defects are reported by the quiescence monitors.
 		var segs [][]string
 		cur := []string{}
 		for _, w := range f[1:] {
@@ -723,17 +707,6 @@ func (r *runner) priLine(f []string, l string) string {
 }
 
 func runCase(c corr.Case) (res corr.Result) {
-	// Scripts with an `atomic` burst run with the collector off (and one full collection first): the burst relies on the
-	// harness goroutine keeping the only P until it is over, and a GC cycle in progress could make it yield (allocation
-	// assist) so that a woken consumer resumes inside the burst.
-	for _, l := range c.Lines {
-		if strings.HasPrefix(l, "atomic") {
-			old := debug.SetGCPercent(-1)
-			defer debug.SetGCPercent(old)
-			runtime.GC()
-			break
-		}
-	}
 	r := &runner{s: sched.New(), seen: map[string]bool{}, seenRet: map[*sched.Task]bool{}, accepted: map[int]int{}, handed: map[int]int{},
 		quit: make(chan struct{})}
 	reset := func() {
@@ -902,15 +875,13 @@ func genAtomic(r *rng.R, kind string) corr.Case {
 		}
 		return "add " + item()
 	}
-	// one consumer call kind per script: with Pop and PopAnyway consumers mixed, WHICH of them is left parked after a
-	// partially served burst is the scheduler's choice and becomes observable at a later close with residue
-	call := "pop"
-	if kind != "syncq" && r.Chance(1, 3) {
-		call = "popany"
-	}
 	for round := 0; round < r.Range(1, 3); round++ {
 		for i := 0; i < r.Range(1, 3); i++ {
-			lines = append(lines, call)
+			if kind != "syncq" && r.Chance(1, 3) {
+				lines = append(lines, "popany")
+			} else {
+				lines = append(lines, "pop")
+			}
 		}
 		var evs []string
 		for i := 0; i < r.Range(2, 4); i++ {
